@@ -1,8 +1,8 @@
 package main
 
 import (
-	"go/types"
 	"go/token"
+	"go/types"
 	"regexp"
 	"strings"
 
@@ -76,7 +76,9 @@ func checkC19(c *Ctx) {
 		}
 		nInc++
 		facts := fl.At(st)
-		okInc := fl.K.Key(st.Val) == "(p0->"+kBF+"len + c:1)" && falseOf(facts, func(k string) bool { return strings.HasPrefix(k, kIsSetCall+"*p0, ") || strings.HasPrefix(k, kIsSetCall+"p0, ") || strings.HasPrefix(k, kIsSetCall+"p0->"+kBF+"data, ") })
+		okInc := fl.K.Key(st.Val) == "(p0->"+kBF+"len + c:1)" && falseOf(facts, func(k string) bool {
+			return strings.HasPrefix(k, kIsSetCall+"*p0, ") || strings.HasPrefix(k, kIsSetCall+"p0, ") || strings.HasPrefix(k, kIsSetCall+"p0->"+kBF+"data, ")
+		})
 		c.Check(okInc, "C19.2", "set: len++ only for a bit that was clear", p.InstrPos(st), "len := len+1 only under !isSet(byteIdx, bitIdx)", "increment not gated by !isSet; facts: "+join(facts.Sorted()))
 	}
 	if nInc == 0 {
